@@ -3,6 +3,7 @@ CONSTANT Kernels <- KMany
 CONSTANT NWs = {1, 2, 3, 5, 0}
 CONSTANT Timeouts = {TRUE, FALSE}
 CONSTANT TickEnabled = TRUE
+CONSTANT ReduceIdle = FALSE
 CONSTANT DeadlineTestFirst = TRUE
 SPECIFICATION Spec
 INVARIANT TypeOK
